@@ -27,6 +27,10 @@ var defaultInitAllow = []string{
 	"github.com/jcmoraisjr/haproxy-ingress/",
 	"strings", "strconv", "sort", "unicode", "unicode/utf8", "container/list",
 	"time", "bytes", "path", "slices", "maps", "cmp",
+	"k8s.io/apimachinery/pkg/labels", "k8s.io/apimachinery/pkg/selection",
+	"k8s.io/apimachinery/pkg/util/validation", "k8s.io/apimachinery/pkg/util/validation/field",
+	"k8s.io/apimachinery/pkg/util/sets", "k8s.io/apimachinery/pkg/api/errors",
+	"sigs.k8s.io/gateway-api/apis/v1", "sigs.k8s.io/gateway-api/apis/v1alpha2", "sigs.k8s.io/gateway-api/apis/v1beta1",
 }
 
 // Packages of the module whose initialisers are not run (template function maps, metrics
